@@ -27,7 +27,9 @@ RULE = ('(1) exhaustive strings (len <= L over {quote, double quote, backslash, 
 HOSTILE_LITERALS = ['select', 'SELECT * FROM a', 'where x', '* ,', ' as x', 'order by a1 desc', '#c', ';', 'a1', 'b.x', ' with (header)', "it's", 'q"q', 'back\\slash', 'a1 = 5',
                     'join b on a1 == b1', ', ', 'limit 1', 'top 5', 'distinct', 'group by', 'update set', 'except a1', ' ', '', 'NR', '[x]', '(', 'a[1]', '==', 'x\ty', 'é',
                     # replacement patterns of JavaScript's String.replace / replaceAll and of Python's str.format / % / re.sub: literal text is opaque to all of them
-                    '$$', '<$&>', 'US$', '$`x', "a$'b", '$1', '{}', '{0}', '%s', '%(x)s', '\\1', '\\g<0>']
+                    '$$', '<$&>', 'US$', '$`x', "a$'b", '$1', '{}', '{0}', '%s', '%(x)s', '\\1', '\\g<0>',
+                    # a literal whose content ENDS in backslashes (written doubled): the closing quote must still be found
+                    'dir\\', '\\', '\\\\', 'a\\ where ', "it's\\"]
 
 
 def gen_parse_texts(rnd, n):
@@ -172,6 +174,15 @@ def run(res, tier, seed):
     # the rbql-js twins (separate implementation: spaces-only strip, `SET` without trailing space, `&&`, assertion instead of
     # a parsing error for SELECT+UPDATE): Model/ParseJs.lean against rbql.js on the same texts
     jlines = []
+    Lj = 7 if tier == 'quick' else 9
+    for t in csvgen.all_strings('\'"\\a`', Lj):
+        jlines.append('seplitjs ' + enc_str(t))
+    res.exhaustive['rbql.js separate_string_literals: all strings len<=%d over {\' " \\ a `}' % Lj] = True
+    for t in csvgen.all_strings('\'\\a\n\t ', 6):
+        jlines.append('seplitjs ' + enc_str(t))
+    for _ in range(3000 if tier == 'quick' else 40000):
+        t = ''.join(rnd.choice(['a1', "'", '"', '`', '\\', '\\\\', ' ', 'select', ' where ', '\t', '\n', '___RBQL_STRING_LITERAL0___', 'x', '#', ',', "\\'", '${a1}']) for _i in range(rnd.randint(0, 14)))
+        jlines.append('seplitjs ' + enc_str(t))
     for l in lines:
         op, payload = l.split(' ', 1)
         if op == 'actions':
